@@ -495,3 +495,48 @@ def literal_family(ctx, callbacks, coins=("bitcoin", "litecoin"), verify=False):
                     s.verify, s.start = True, first + 1
                 s.meta = {"literal": L, "variant": variant}
                 check(ctx, "literal:%d" % L, [s], comparators_for(cb), nontrivial=lambda s, m: True)
+
+
+# ---- scale ---------------------------------------------------------------------------------------
+# (callback, coin, options) per property: long chains through the property's own callbacks.  n blocks in the quick tier, 6 n in thorough.
+SCALE = {
+    "C01": [("csvdump", "bitcoin", dict(n=2600, per_file=500, txs_per_block=3)), ("csvdump", "litecoin", dict(n=1200, txs_per_block=30, spend_every=2))],
+    "C02": [("csvdump", "bitcoin", dict(n=2600, start=1300, stop=2100)), ("simplestats", "litecoin", dict(n=2600, start=257, stop=2304)), ("opreturn", "bitcoin", dict(n=2600, stop=2047))],
+    "C03": [("csvdump", "bitcoin", dict(n=1500, per_file=1)), ("csvdump", "testnet3", dict(n=2600, per_file=37, pad=9))],
+    "C04": [("csvdump", "bitcoin", dict(n=2600, per_file=300))],
+    "C07": [("unspentcsvdump", "bitcoin", dict(n=2600, addresses=3000, spend_every=3)), ("unspentcsvdump", "dogecoin", dict(n=1200, txs_per_block=40, addresses=70000))],
+    "C08": [("balances", "bitcoin", dict(n=2600, addresses=3000, spend_every=3)), ("balances", "litecoin", dict(n=1200, txs_per_block=40, addresses=70000))],
+    "C09": [("csvdump", "bitcoin", dict(n=2600, verify=True, start=1)), ("balances", "litecoin", dict(n=1500, verify=True, start=1, txs_per_block=9))],
+    "C10": [("csvdump", "bitcoin", dict(n=2600)), ("unspentcsvdump", "bitcoin", dict(n=2600)), ("balances", "bitcoin", dict(n=2600))],
+    "C11": [("csvdump", "bitcoin", dict(n=2600, xor=True, per_file=700)), ("simplestats", "litecoin", dict(n=1500, xor=True))],
+    "C12": [("csvdump", "namecoin", dict(n=1300, auxpow=True)), ("simplestats", "dogecoin", dict(n=1300, auxpow=True))],
+    "C13": [("simplestats", "bitcoin", dict(n=2600, threads=3)), ("balances", "bitcoin", dict(n=2600, threads=64, addresses=3000))],
+    "C14": [("opreturn", "litecoin", dict(n=1500)), ("csvdump", "namecoin", dict(n=1500))],
+    "C15": [("simplestats", "bitcoin", dict(n=2600, txs_per_block=3)), ("simplestats", "dogecoin", dict(n=1200, txs_per_block=60, spend_every=2))],
+    "C16": [("opreturn", "bitcoin", dict(n=2600)), ("opreturn", "dogecoin", dict(n=2600, per_file=100))],
+    "C17": [("csvdump", "bitcoin", dict(n=1500, per_file=1, verbose=1)), ("balances", "bitcoin", dict(n=2600, per_file=2, verbose=1))],
+}
+
+
+def scale_family(ctx, prop):
+    """what only shows at scale: thousands of blocks, hundreds or thousands of blk files, tens of thousands of transactions and addresses,
+    running sums past 2^53 and 2^63, outputs spent thousands of blocks later — through the property's own callbacks, against the model"""
+    from . import gen_chain as GC
+    r = ctx.sub_rnd("scale")
+    for k, (cb, coin, o) in enumerate(SCALE.get(prop, [])):
+        o = dict(o)
+        n = o.pop("n") * (6 if ctx.thorough() else 1)
+        if o.get("per_file") == 1:
+            n = min(n, 4000)
+        blocks = GC.long_chain(r, coin, n, addresses=o.pop("addresses", 60), txs_per_block=o.pop("txs_per_block", 1), spend_every=o.pop("spend_every", 5), auxpow=o.pop("auxpow", False))
+        s = K.Scenario(coin=coin, callback=cb)
+        GC.simple_layout(s, blocks, per_file=o.pop("per_file", None), pad=o.pop("pad", 5))
+        s.start, s.stop, s.verify = o.pop("start", 0), o.pop("stop", None), o.pop("verify", False)
+        if s.stop is not None and ctx.thorough():
+            s.start, s.stop = s.start * 6, s.stop * 6
+        s.verbose, s.threads = o.pop("verbose", 0), o.pop("threads", None)
+        if o.pop("xor", False):
+            s.xorkey = GC.xor_key(r)
+        s.meta = {"scale": n, "k": k}
+        cmps = comparators_for(cb) + ([cmp_events] if s.verbose == 1 else [])
+        check(ctx, "scale:%s" % cb, [s], cmps, env_share=0.0, nontrivial=lambda s, m: True)
